@@ -54,7 +54,7 @@ def drain_loops(body, dg):
                     if ve and ve[0] == res:
                         ty = body.locals[res]["ty"]
                         empty_variant = 0 if ty.startswith("std::option::Option") else 1
-                        good = ve[1].get(empty_variant) == y
+                        good = ve[1].get(empty_variant, ve[2]) == y
             if not good:
                 ok = False; why.append(f"exit bb{x}->bb{y} is not the queue's 'empty' answer")
         out.append({"header": h, "dq_block": b, "exits_ok": ok, "why": "; ".join(why), "blocks": blocks})
